@@ -4,7 +4,11 @@ so that the parent can attribute a crash or a hang to a specific call.
 
 usage: life_child.py jobs.json
 jobs.json = {"so": path, "jobs": [ {"id":…, "engines":[option, …], "scripts":[S, …], "calls":[C, …]} ]}
+  option = "euler" | "tauleap" | "gillespie" (stock configuration: requires_molecules = option != "euler"), or
+           "<option>:mol" / "<option>:nomol" (LibRDEngine built with requires_molecules True / False)
   S = {"system": <rdsystem dict>, "kw": {RDScript keyword arguments}}
+      kw["__seed_as__"] = "str" | "np_int64" | "array0" | "float": the TYPE in which rng_seed is handed to RDScript
+      kw["__from_dict__"] = true: the script is built by rdscript_from_dict from a dictionary (seed under the key "seed")
   C = {"obj":i,"call":"setup","script":k} | {"obj":i,"call":"iterate"|"sample"|"get_progress"|"is_complete"|
        "get_output"|"finalize"} | {"obj":i,"call":"iterate_n","n":k} | {"obj":i,"call":"run","ms":m}
      | {"obj":i,"call":"drive","max":N,"samples":[step indices after which sample() is called],"state":bool}
@@ -81,8 +85,10 @@ def main():
         def __setattr__(self, name, value):
             setattr(object.__getattribute__(self, "_real"), name, value)
 
-    def mk(option):
-        return LibRDEngine(LibProxy(ctypes.CDLL(lib_path)), option=option, requires_molecules=(option != "euler"))
+    def mk(spec):
+        option, _, flag = spec.partition(":")
+        req = (option != "euler") if not flag else (flag == "mol")
+        return LibRDEngine(LibProxy(ctypes.CDLL(lib_path)), option=option, requires_molecules=req)
 
     def take_init(e, res):
         try:
@@ -97,9 +103,32 @@ def main():
         sys.stdout.write(tag + " " + (json.dumps(obj) if not isinstance(obj, str) else obj) + "\n")
         sys.stdout.flush()
 
+    def typed_seed(v, how):
+        if v is None or not how:
+            return v
+        if how == "str":
+            return str(int(v))
+        if how == "np_int64":
+            return np.int64(v)
+        if how == "array0":
+            return np.array(int(v))
+        if how == "float":
+            return float(v)
+        return v
+
     def build_script(S):
-        system = st.rdsystem_from_dict(S["system"])
         kw = dict(S["kw"])
+        seed_as = kw.pop("__seed_as__", None)
+        from_dict = kw.pop("__from_dict__", False)
+        if "rng_seed" in kw:
+            kw["rng_seed"] = typed_seed(kw["rng_seed"], seed_as)
+        if from_dict and "units_system" not in kw and not isinstance(kw.get("t_sample"), dict):
+            from strengths.rdscript import rdscript_from_dict
+            d = {"system": S["system"]}
+            for k, v in kw.items():
+                d["seed" if k == "rng_seed" else k] = v
+            return rdscript_from_dict(d)
+        system = st.rdsystem_from_dict(S["system"])
         ts = kw.get("t_sample")
         if isinstance(ts, dict) and "__unitarray__" in ts:
             form = ts.get("form", "unitarray")
